@@ -28,8 +28,8 @@ logging.getLogger("onnx_ir").setLevel(logging.ERROR)
 PROPERTY = "C08"
 LEVEL = "fault_enumeration"
 TIERS = {
-    "quick": {"wall": 45, "chunk": 4, "shrink_budget": 200, "shrink_wall": 60, "per_run_cap": 300.0},
-    "thorough": {"wall": 900, "chunk": 10, "shrink_budget": 500, "shrink_wall": 240, "per_run_cap": 600.0},
+    "quick": {"wall": 37, "optimize_wall": 8, "chunk": 4, "shrink_budget": 200, "shrink_wall": 60, "per_run_cap": 300.0},
+    "thorough": {"wall": 900, "optimize_wall": 120, "chunk": 10, "shrink_budget": 500, "shrink_wall": 240, "per_run_cap": 600.0},
 }
 RULE = (
     "each evaluation = one execution of a save (scenario: destination absent / foreign file / re-save over the file the model reads from / "
@@ -169,6 +169,7 @@ def gen_case(run_seed: int, tier: str, index: int = 0) -> dict:
         "cfr_cap": st.rng("buggify-cfr").choice([None, None, None, 1, 5, 64, 1000]),
         "chunk": r.choice([None, 8, 64]),
     }
+    tensors.assign_layouts(specs, st.rng("layouts"))
     return {
         "property": PROPERTY,
         "run_seed": run_seed,
